@@ -52,11 +52,7 @@ func stateBodyBody(s *Scanner, c byte) *jerr.JApiError {
 		// itself; a regular expression begins with its delimiter, so a comment
 		// line before it is a comment of the API description (as it is before
 		// the regular expression of a response or a request).
-		if s.isDirectiveParameterHasRegexNotation() {
-			return s.startComment()
-		}
-		s.step = s.stepStack.Pop()
-		return s.step(s, c)
+		return s.startComment()
 	default:
 		s.step = s.stepStack.Pop()
 		return s.step(s, c)
